@@ -14,7 +14,7 @@ func main() {
 		Rule: "generated programs dominated by coroutine shapes: create/resume/yield ping-pong with 0..2 payload values each way, wrap generators driving for-in, errors inside coroutines, nested resumes, " +
 			"status/running queried from inside and outside, resuming dead/running/normal coroutines; traces compared with the reference evaluator; non-trivial = at least 5 emitted rows or an error outcome; distinct by Gallina term",
 		Modes:     []luaprop.Mode{{Name: "coroutines", Features: f, Weight: 1}},
-		NQuick:    400,
+		NQuick:    240,
 		NThorough: 6000,
 		Corpus:    corpus,
 		Isolate:   true,
@@ -22,6 +22,7 @@ func main() {
 }
 
 var corpus = []string{
+	`local co = coroutine.create(math.max); emit(coroutine.resume(co, 1, 5, 3)); emit(coroutine.status(co), coroutine.running()); emit(coroutine.wrap(string.rep)("ab", 2)); emit(coroutine.resume(co))`,
 	`local co = coroutine.create(function(a, b) emit("start", a, b); local c, d = coroutine.yield(a + b); emit("got", c, d); local e = coroutine.yield(); emit("got2", e); return "fin", 9 end); emit(coroutine.resume(co, 1, 2)); emit(coroutine.status(co)); emit(coroutine.resume(co, 3)); emit(coroutine.resume(co)); emit(coroutine.status(co)); emit(coroutine.resume(co))`,
 	`local A, B; A = coroutine.create(function() emit("A status of B", coroutine.status(B)); return coroutine.resume(B) end); B = coroutine.create(function() emit("B sees A", coroutine.status(A)); return coroutine.resume(A) end); emit(coroutine.resume(A))`,
 	`local co; co = coroutine.create(function() emit(coroutine.status(co), coroutine.running() == co); emit(coroutine.resume(co)) end); emit(coroutine.resume(co)); emit(coroutine.running())`,
